@@ -90,6 +90,14 @@ func (p *Proxy) NSent(dir string) int {
 	return len(p.Transcript[dir])
 }
 
+// Raw returns a copy of everything written towards the peer of dir so far (under the proxy's lock: the proxy's
+// goroutines may still be writing).
+func (p *Proxy) Raw(dir string) []byte {
+	p.mu.Lock()
+	defer p.mu.Unlock()
+	return append([]byte(nil), p.RawBytes[dir]...)
+}
+
 // Inject writes raw bytes towards the peer of dir (as if dir had sent them).
 func (p *Proxy) Inject(dir string, data []byte) error {
 	p.mu.Lock()
